@@ -41,7 +41,13 @@ def declare(spec):
     spec.declare_var('x', 'float')
     spec.declare_var('y', 'float')
     spec.declare_var('out', 'float')
+    # declared constants that may be used as bounds: cp = 2, cn = -3 (a negative bound must be refused)
+    spec.declare_const('cp', 'int', '2')
+    spec.declare_const('cn', 'int', '-3')
     return spec
+
+
+CONSTS = {'cp': 2, 'cn': -3}
 
 
 def new_spec(text):
@@ -77,15 +83,24 @@ def intervals_of(words):
     return res
 
 
+def lit_value(w):
+    """exact value of a literal word"""
+    t = w.replace('_', '')
+    if t[:2].lower() in ('0x', '0b'):
+        return Fr(int(t, 0))
+    from decimal import Decimal
+    return Fr(Decimal(t))
+
+
 def side_conditions(words):
     """message if an accepted text violates a side condition of the statement"""
     for a, ua, b, ub in intervals_of(words):
         for w in (a, b):
-            if grammar.token_type(w) == 'Identifier':
+            if grammar.token_type(w) == 'Identifier' and w not in CONSTS:
                 return 'bound constant %s is not declared' % w
         try:
-            ba = Fr(a) * U[ua or ub or 's']
-            bb = Fr(b) * U[ub or ua or 's']
+            ba = (Fr(CONSTS[a]) if a in CONSTS else lit_value(a)) * U[ua or ub or 's']
+            bb = (Fr(CONSTS[b]) if b in CONSTS else lit_value(b)) * U[ub or ua or 's']
         except Exception:
             continue
         if ba > bb:
@@ -152,7 +167,12 @@ def shards(tier):
         out.append({'mode': 'edits', 'i': i})
     out.append({'mode': 'illegal'})
     out.append({'mode': 'bounds'})
+    out.append({'mode': 'literals'})
     return out
+
+
+# every literal form of the lexer grammar: decimal, hex, binary, underscores, reals with and without exponent
+LITERALS = ['0', '7', '10', '1_000', '1__0', '0x10', '0X1f', '0xA_b', '0b11', '0B1_0', '1.5', '5.', '.5', '1e1', '1E+2', '1.5e-1', '.5e1', '1_0.2_5', '2e0']
 
 
 def run_shard(shard, tier, res):
@@ -206,6 +226,13 @@ def run_shard(shard, tier, res):
                     txt = c[:p] + ch + c[p:]
                     one(txt.replace(ch, ' ').split(), text=txt, skipped=True)
         res.sample({'text': 'out = x #>= 1', 'verdict': 'must be rejected'}, 1)
+    elif shard['mode'] == 'literals':
+        for lit in LITERALS:
+            for words in (['out', '=', 'x', '>=', lit], ['out', '=', lit], ['out', '=', 'abs', '(', 'x', '-', lit, ')', '<=', lit],
+                          ['out', '=', 'once', '[', '0', ',', lit, ']', 'x'], ['out', '=', 'always', '[', lit, ':', '1000', ']', 'x'],
+                          ['out', '=', 'x', 'since', '[', lit, 's', ',', lit, 's', ']', 'y'], ['out', '=', 'pow', '(', 'x', ',', lit, ')', '>=', '0']):
+                one(words)
+        res.sample({'text': 'out = x >= 0x10', 'verdict': 'derivable (hex IntegerLiteral): must parse or be refused with RTAMTException'}, 1)
     else:
         for op in ('once', 'always', 'since', 'until', 'unless'):
             for a, b in itertools.product(('0', '1', '2', '3', '1.5'), repeat=2):
@@ -213,8 +240,9 @@ def run_shard(shard, tier, res):
                     iv = ['['] + [a] + ([ua] if ua else []) + [','] + [b] + ([ub] if ub else []) + [']']
                     words = ['out', '='] + (['x', op] + iv + ['y'] if op in ('since', 'until', 'unless') else [op] + iv + ['x'])
                     one(words)
-        for b in ('c', 'k'):
-            for text_words in (['out', '=', 'once', '[', '0', ',', b, ']', 'x'], ['out', '=', 'always', '[', b, 's', ':', '2', 's', ']', 'x']):
+        for b in ('c', 'k', 'cp', 'cn', 'x', 'out'):
+            for text_words in (['out', '=', 'once', '[', '0', ',', b, ']', 'x'], ['out', '=', 'always', '[', b, 's', ':', '2', 's', ']', 'x'],
+                               ['out', '=', 'x', 'since', '[', b, ',', 'cp', ']', 'y'], ['out', '=', 'eventually', '[', 'cn', ',', b, ']', 'x']):
                 one(text_words)
         for ident in ('z', 'z.f', 'x.f', 'out', 'zz9', '_u', '$v'):
             one(['out', '=', ident, '>=', '1'])
